@@ -386,17 +386,43 @@ def oracle(case):
             return "%s: data() %s differs from what was written %s" % (tag, got, ref)
         return None
     for k, op in enumerate(case["ops"]):
-        if op[0] == "add" and op[3] == "ok" and not op[4]:
+        if op[0] == "add" and op[3] == "ok":
             try:
-                store.add(np.array(op[1], dtype=np.int32), {n: enc_col(s, d, op[2]) for n, s, d in layout}, {}, [])
+                store.add(np.array(op[1], dtype=np.int32), {n: enc_col(s, d, op[2]) for n, s, d in layout}, {},
+                          [make_transform(t, layout, []) for t in op[4]])
             except Exception as e:  # noqa
                 return "op %d: valid add raised %r" % (k, e)
-            new = sorted({i for i in op[1] if i not in ref})
-            for i, x in zip(op[1], op[2]):
+            # the documented contract: every transform sees the occupancy of ITS input indices in the store as it was before the
+            # call, and its output replaces (indices, new_data); the final rows are written in order
+            idx, xs = list(op[1]), list(op[2])
+            for t in op[4]:
+                occ = [i in ref for i in idx]
+                n_ = len(idx)
+                if t == "id":
+                    keep = list(range(n_))
+                elif t == "rev":
+                    keep = list(range(n_))[::-1]
+                elif t == "evens":
+                    keep = list(range(0, n_, 2))
+                elif t == "dedupe_first":
+                    seen_, keep = set(), []
+                    for j in range(n_):
+                        if idx[j] not in seen_:
+                            seen_.add(idx[j])
+                            keep.append(j)
+                elif t == "only_unocc":
+                    keep = [j for j in range(n_) if not occ[j]]
+                elif t == "only_occ":
+                    keep = [j for j in range(n_) if occ[j]]
+                else:
+                    keep = []
+                idx, xs = [idx[j] for j in keep], [xs[j] for j in keep]
+            new = sorted({i for i in idx if i not in ref})
+            for i, x in zip(idx, xs):
                 ref[i] = x
             order.extend(new)
         elif op[0] == "add":
-            continue  # oracle only judges plain valid adds; transform chains are judged by the model
+            continue  # malformed adds are judged by the model (and must leave the store unchanged, which the next chk sees)
         elif op[0] == "clear":
             store.clear()
             ref.clear()
